@@ -30,6 +30,12 @@ impl FileDownloader {
         Ok(Self { config, client })
     }
 
+    /// Verification hook: as `new`, but with the store client supplied by the caller.
+    #[cfg(xet_verif)]
+    pub fn verif_new_with_client(config: Arc<TranslatorConfig>, client: Arc<dyn Client + Send + Sync>) -> Self {
+        Self { config, client }
+    }
+
     pub async fn smudge_file_from_pointer(
         &self,
         pointer: &PointerFile,
